@@ -186,7 +186,11 @@ class Check:
         bad = to_text(story_move(6, ['ZZ', 'A']))
         rd = to_text(ro_delete(9))
         ro2 = to_text(gens.make_ro(['X'], message_id=3, ro_id='OTHER'))
-        sets = {'valid': {'1.mos.xml': ro, '5.mos.xml': app, '9.mos.xml': rd},
+        done = impl.run_add(ro, to_text(ro_delete(1)))
+        ro_done = X.tree_to_string(done['tree'])            # a completed running order that was written out earlier
+        sets = {'completed-input': {'1.mos.xml': ro_done, '5.mos.xml': app},
+                'completed-input-delete': {'1.mos.xml': ro_done, '9.mos.xml': rd},
+                'valid': {'1.mos.xml': ro, '5.mos.xml': app, '9.mos.xml': rd},
                 'incomplete': {'1.mos.xml': ro, '5.mos.xml': app},
                 'failing': {'1.mos.xml': ro, '5.mos.xml': app, '6.mos.xml': bad, '9.mos.xml': rd},
                 'failing-incomplete': {'1.mos.xml': ro, '6.mos.xml': bad},
